@@ -11,6 +11,8 @@ CONSTANTS
   Modes = {"pruned"}
   MaxRestarts = 1
   MaxDeletes = 1
+  MaxReadFaults = 1
+  MaxAbortFaults = 1
   IntraHead = FALSE
   LazyChain = FALSE
   SimBias = FALSE
